@@ -345,7 +345,8 @@ class Verdict:
             else:
                 unlisted.append(v)
         os.makedirs(os.path.join(VERIF, "replays"), exist_ok=True)
-        for v in unlisted:
+        MAXREP = 200      # a badly broken tree produces thousands of distinct keys: the first MAXREP get a replay file and a line
+        for v in unlisted[:MAXREP]:
             h = hashlib.sha1(v["key"].encode()).hexdigest()[:10]
             path = os.path.join(VERIF, "replays", "%s-%s.json" % (self.prop, h))
             with open(path, "w") as f:
@@ -353,6 +354,8 @@ class Verdict:
                           f, indent=1, default=str)
             print("VIOLATION property=%s replay=%s" % (self.prop, path))
             print("  key=%s: %s" % (v["key"], v["what"]))
+        if len(unlisted) > MAXREP:
+            print("  (... and %d more violation keys of property %s not listed)" % (len(unlisted) - MAXREP, self.prop))
         sys.stdout.flush()
         return (1 if unlisted else 0), len(unlisted)
 
